@@ -426,6 +426,9 @@ impl<R: RefCounter, PR: PathRefCounter, H: Header> Memory<R, PR, H> {
             ptr::write_bytes(ptr.add(allocated), 0, cap - allocated as usize);
           }
 
+          // finish removals from the free list that a crash interrupted
+          (*header_ptr).recover_freelist(ptr, cap as u32);
+
           (CURRENT_VERSION, magic_version)
         };
 
